@@ -12,6 +12,7 @@ import (
 	"fmt"
 	"os"
 	"path/filepath"
+	"regexp"
 	"strings"
 	"sync"
 
@@ -54,6 +55,8 @@ type Layout struct {
 	TrexStale bool `json:"trex_stale,omitempty"`
 	// VCodec: @codecs of the video representations in the VoD MPD if not "avc1.64001e" (e.g. "avc3.64001e": in-band parameter sets)
 	VCodec string `json:"vcodec,omitempty"`
+	// ASCodecs: @codecs is written on the AdaptationSet elements of the VoD MPD instead of on their Representations
+	ASCodecs bool `json:"as_codecs,omitempty"`
 }
 
 type Clock struct{ Timescale, FrameDur int }
@@ -648,5 +651,16 @@ func (l Layout) mpd(vTL, aTL, tTL string) string {
 `, l.VSegFrames[0]*l.VFrameDur, l.VTimescale)
 	}
 	b.WriteString("  </Period>\n</MPD>\n")
-	return b.String()
+	if !l.ASCodecs {
+		return b.String()
+	}
+	// move @codecs from the Representations of every adaptation set up to the AdaptationSet element
+	codecsRe := regexp.MustCompile(` codecs="([^"]*)"`)
+	sets := strings.Split(b.String(), "<AdaptationSet ")
+	for i := 1; i < len(sets); i++ {
+		if m := codecsRe.FindStringSubmatch(sets[i]); m != nil {
+			sets[i] = "codecs=\"" + m[1] + "\" " + codecsRe.ReplaceAllString(sets[i], "")
+		}
+	}
+	return strings.Join(sets, "<AdaptationSet ")
 }
